@@ -184,8 +184,8 @@ def gen_cases_raw(ctx):
             c = {"kind": "bag", "frame": "map"}
             c.update(gen_flavoured(r, n))
             if c["flavour"] == "f32":
-                # float32 *timestamps* make write_bag_trajectory do its sec/nanosec arithmetic in float32 (several ns off): reported as a
-                # candidate finding (harness/corpus/C06/bag-stamp-float32.json), not generated until it is decided
+                # float32 *timestamps* make write_bag_trajectory do its sec/nanosec arithmetic in float32 (several ns off): outside the
+                # property's domain (float64 values; decided), see notes/observations/C06-bag-stamp-float32.json — not generated
                 c["stamp_flavour"] = None
         else:
             afl = r.choice(["int", "f32", "noncontig", "readonly", "fortran"])
@@ -1149,6 +1149,7 @@ OPEN = ["zip / npy / pandas / rosbags serialisation are libraries: bit-exact dif
         "the ROS2 bag writer cannot be constructed the way evo calls it with the installed rosbags (needs version=): only ROS1 is exercised",
         "bag stamps: proved for the repaired code (F14) |x' - x| <= 1 ns for every binary64 stamp in [0, 2^31), header within 0.5 ns + 2^-52 s, "
         "x' = x when the spacing exceeds 2 ns; the pre-repair truncating code is kept as Text.bagSplitTrunc with the kernel-checked counterexample",
+        "observation, outside the domain: float32 timestamp arrays in write_bag_trajectory (float32 sec/nanosec arithmetic, a few ns off) are not generated",
         "archive member names: array/trajectory names that are empty or contain '/' are outside the domain (Path(...).stem cuts them): not generated"]
 
 
